@@ -310,4 +310,139 @@ theorem inv_item {s : St} {i : Nat} {ch : Bool} {it it' : Item} {e : Eff} (hi : 
       · simp [h]
       · simp [h]
 
+theorem step_inv {s s' : St} {a : Act} (hi : Inv s) (h : step s a = some s') : Inv s' := by
+  cases a with
+  | item i ch =>
+    simp only [step] at h
+    split at h
+    · cases h
+    · rename_i it hit
+      split at h
+      · cases h
+      · rename_i it' e hs
+        cases h
+        exact inv_item hi hit hs
+  | spawn it =>
+    simp only [step] at h
+    split at h
+    · rename_i hf; cases h; exact inv_spawn hi hf
+    · cases h
+  | queue i outs =>
+    simp only [step] at h
+    split at h
+    · cases h
+    · rename_i it hit
+      split at h
+      · rename_i hc; cases h; exact inv_queue hi hit hc.1 hc.2
+      · cases h
+
+theorem run_inv {as : List Act} : ∀ {s s' : St}, Inv s → run s as = some s' → Inv s' := by
+  induction as with
+  | nil => intro s s' hi h; simp [run] at h; subst h; exact hi
+  | cons a as ih =>
+    intro s s' hi h
+    simp only [run] at h
+    split at h
+    · cases h
+    · rename_i s1 hs1; exact ih (step_inv hi hs1) h
+
+/-- A module with nothing running and an error channel with room for `cap` reports. -/
+def St.init (cap : Nat) : St := { cap := cap }
+
+theorem init_inv (cap : Nat) : Inv (St.init cap) := by
+  constructor <;> simp [St.init, sumBy, sumNat]
+
+/-- States reachable from an idle module by any interleaving of any managed executions. -/
+def Reachable (s : St) : Prop := ∃ cap as, run (St.init cap) as = some s
+
+theorem reachable_inv {s : St} (h : Reachable s) : Inv s := by
+  obtain ⟨cap, as, h⟩ := h
+  exact run_inv (init_inv cap) h
+
+theorem allDone_iff (s : St) : s.allDone = true ↔ ∀ it ∈ s.items, it.done = true := by
+  simp [St.allDone]
+
+theorem mem_of_getElem? {l : List Item} {i : Nat} {a : Item} (h : l[i]? = some a) : a ∈ l :=
+  List.mem_of_getElem? h
+
+theorem sumNat_congr (f g : Item → Nat) (l : List Item) (h : ∀ a ∈ l, f a = g a) : sumNat f l = sumNat g l := by
+  induction l with
+  | nil => simp [sumNat]
+  | cons a l ih =>
+    have h1 := h a (by simp)
+    have h2 := ih (fun b hb => h b (by simp [hb]))
+    simp [sumNat, h1, h2]
+
+theorem done_pendingReport (it : Item) (h : it.done = true) : it.pendingReport = 0 := by
+  unfold Item.done at h
+  unfold Item.pendingReport
+  cases hk : it.kind <;> simp [hk] at h ⊢ <;> omega
+
+theorem inv_loc_mem {s : St} (hi : Inv s) {it : Item} (h : it ∈ s.items) : it.Local := by
+  obtain ⟨i, hi'⟩ := List.getElem?_of_mem h
+  exact hi.loc i it hi'
+
+/-! ### the service-worker loop, seen from the item (timer choice only) -/
+
+/-- `n` steps of an item on its own, ignoring their effects on the shared state (timer choice). -/
+def itemIter (env : Env) : Nat → Item → Option Item
+  | 0, it => some it
+  | n + 1, it => match itemStep env it false with
+    | some (it', _) => itemIter env n it'
+    | none => none
+
+theorem svc_restart_path (env : Env) (it : Item) (hk : it.kind = .svc) (hp : it.pc = 3)
+    (hr : it.cur.restarts = true) (hs : env.stopFlag = false) :
+    ∃ n it', n ≤ 3 ∧ itemIter env n it = some it' ∧ it'.kind = .svc ∧ it'.pc = 2 ∧ it'.cw = 1 ∧
+      it'.outs = it.outs ∧ it'.runs = it.runs := by
+  cases hc : it.cur with
+  | ok => simp [hc, Outcome.restarts] at hr
+  | canceled => simp [hc, Outcome.restarts] at hr
+  | restart =>
+    refine ⟨2, { it with pc := 2, ret := some .restart }, by omega, ?_, ?_⟩
+    · simp [itemIter, itemStep, svcStep, hk, hp, hc, recoverRet, hs]
+    · simp [hk, Item.cw]
+  | err =>
+    refine ⟨3, { it with pc := 2, ret := some .err, failCnt := it.failCnt + 1 }, by omega, ?_, ?_⟩
+    · simp [itemIter, itemStep, svcStep, hk, hp, hc, recoverRet, hs]
+    · simp [hk, Item.cw]
+  | panic v =>
+    refine ⟨3, { it with pc := 2, ret := some (.panicErr (panicReport .worker v)), reps := it.reps + 1, failCnt := it.failCnt + 1 }, by omega, ?_, ?_⟩
+    · simp [itemIter, itemStep, svcStep, hk, hp, hc, recoverRet, recovered_ne_nil, hs]
+    · simp [hk, Item.cw]
+
+/-! ### lifecycle passes -/
+
+theorem passFirstErr_of_mem {rs : List CtrlRet} {r : CtrlRet} (hm : r ∈ rs) (he : r.isErr = true) :
+    (passFirstErr rs).isSome = true := by
+  induction rs with
+  | nil => simp at hm
+  | cons x xs ih =>
+    simp only [passFirstErr]
+    split
+    · rfl
+    · rcases List.mem_cons.mp hm with h | h
+      · subst h; simp_all
+      · exact ih h
+
+theorem passLastErr_of_mem {rs : List CtrlRet} {r : CtrlRet} (hm : r ∈ rs) (he : r.isErr = true) :
+    (passLastErr rs).isSome = true := by
+  induction rs with
+  | nil => simp at hm
+  | cons x xs ih =>
+    simp only [passLastErr]
+    rcases List.mem_cons.mp hm with h | h
+    · subst h
+      split
+      · rfl
+      · simp [he]
+    · have := ih h
+      split
+      · rfl
+      · rename_i hn; simp [hn] at this
+
+theorem runCtrl_panic (k : Kind) (hk : k = .ctrl ∨ k = .stop) (v : PCls) :
+    runCtrl k (some (.panic v)) = (.panicMsg, [panicReport .ctrl v]) := by
+  rcases hk with rfl | rfl <;> cases v <;> rfl
+
 end PB.Managed
